@@ -315,7 +315,8 @@ def corpus():
     hrow = lambda o, c, l: dict(length=F1(l), column=c, offset=F1(o))
     c = []
     # D09 witness shape: empty(n) must not grow an 'index' column
-    for name in ("TimedList", "OsuHoldList", "QuaBpmList"):
+    # ... and (D08) a list-valued default must come out as one empty list per row, not NaN
+    for name in ("TimedList", "OsuHoldList", "QuaBpmList", "QuaHitList", "QuaHoldList"):
         c.append(dict(claim="fields", cls=name, init=dict(how="empty", n=2)))
     c.append(dict(claim="history", cls="HoldList", init=dict(how="empty", n=3),
                   ops=[dict(k="append", how="list", rows=[hrow(1, 2, 3)], sort=True)], probes=[0, -1, 4]))
@@ -689,8 +690,10 @@ def run_fields(case, drv):
     undeclared = how == "dict" and any(k not in declared for k in init["cols"])
     detail = {}
     if "ok" in impl:
-        spec = drv.call("c16.spec_fields", cls=name, cols=impl["ok"]["cols"])["ok"]
-        ok = bool(spec) and len(impl["ok"]["rows"]) == want and not undeclared
+        # for empty(n) the rows are judged too: every declared field present with a value (no NaN) in every row
+        judged_rows = [r for _, r in impl["ok"]["rows"]] if how == "empty" else []
+        spec = drv.call("c16.spec_fields", cls=name, cols=impl["ok"]["cols"], rows=judged_rows)["ok"]
+        ok = spec["declared"] and spec["no_missing"] and spec["row_fields"] and len(impl["ok"]["rows"]) == want and not undeclared
         # column order and row labels are pandas detail the property does not name
         agree = "ok" in m and sorted(m["ok"]["cols"]) == sorted(impl["ok"]["cols"]) and \
             tbl_eq(impl["ok"]["rows"], m["ok"]["rows"], labels=False)
